@@ -95,6 +95,7 @@ void XMLInitializer::terminateStaticData()
 
 	// DOM
     //
+    terminateDOMHeap();
     terminateDOMNormalizer();
     terminateDOMNodeListImpl();
     terminateDOMDocumentTypeImpl();
